@@ -58,6 +58,11 @@ class ItemSession(object):
     def skip(self):
         '''Mark the item as processed without download.'''
         _logger.debug(__(_('Skipping ‘{url}’.'), url=self.url_record.url))
+
+        # Store the URLs found so far before the item is marked as finished,
+        # otherwise they are lost if the process dies in between.
+        self.finish()
+
         self.app_session.factory['URLTable'].check_in(self.url_record.url, Status.skipped)
 
         self._processed = True
@@ -81,6 +86,10 @@ class ItemSession(object):
 
         url_result = URLResult()
         url_result.filename = filename
+
+        # Store the URLs found so far before the item is marked as finished,
+        # otherwise they are lost if the process dies in between.
+        self.finish()
 
         self.app_session.factory['URLTable'].check_in(
             url,
